@@ -111,7 +111,7 @@ def groups(tier, seed):
     for d in ('d1', 'plain'):
         for path in ('stream', 'ordered', 'aggregate', 'grouped', 'grouped-ordered'):
             yield {'dir': d, 'path': path, 'cases': [{'cols': ci, 'fmt': fmt, 'limit': None, 'lit': lit} for ci in (0, 1) for fmt in FORMATS
-                                                      for lit in ('1', "'#'", '2 + 3', "'-1'")]}
+                                                      for lit in ('1', "'#'", '2 + 3', "'-1'", 'case-twins')]}
 
 
 def single(case):
@@ -280,7 +280,9 @@ def eval_group(env, group, tier):
                 sel, tail, ordered = cols + ['count(*)'], ' group by ' + ', '.join(cols) + ' order by name', True
             if c['limit']:
                 tail += ' limit %d' % c['limit']
-            if c.get('lit'):
+            if c.get('lit') == 'case-twins':       # two constant columns whose texts differ in letter case only
+                sel = ["'Total'", "'TOTAL'"] + sel
+            elif c.get('lit'):
                 sel = [c['lit']] + sel
             base = ', '.join(sel) + ' from ' + d + tail
             ref = env.run([base + ' into list'], cwd=root)
